@@ -7,6 +7,7 @@ _FEAT_KEY = {
     "default-unset": "checker-unset-tier-default-action-fails-evaluation",
     "ipver": "checker-ignores-rule-ip-version",
     "trie": "checker-ipset-net-prefix-below-bitmap-never-matches",
+    "named": "checker-named-port-lookup-by-bare-port-never-matches",
 }
 _EXPLAINED = {}
 
@@ -49,7 +50,7 @@ CFG = dict(
     shard=6,
     deps=["Common", "C08", "C09", "C11"],
     harness_dirs=["C12", "C11"],
-    rule="4 corpus cases (minimal witnesses of the four checker finding classes) + generated workload-endpoint states: 0-3 tiers "
+    rule="5 corpus cases (minimal witnesses of the five checker finding classes) + generated workload-endpoint states: 0-3 tiers "
          "(default action Deny / Pass, unset only where the tree supports it or in its own stream) x 0-4 policies per tier (GNP, NP, KNP "
          "and the three staged kinds), policies split into policy groups at random, 0-3 rules per policy and direction, 0-3 profiles, "
          "ingress and egress, IPv4 and IPv6, 4 mark layouts, flow logs on/off, DROP/REJECT; rules of the COMMON FRAGMENT over a small "
@@ -60,8 +61,8 @@ CFG = dict(
          "probe packets per case (one aimed at each rule + a one-field perturbation, randoms; random entry marks, drop bit clear) are "
          "evaluated on all four (Ipt.run x2, Bpf interpreter, real checker) and compared with each other and PolicyRef.  Feature streams "
          "(10% each): profile Pass rules, unset tier default action, explicit ip_version, NET set members with prefix length "
-         "between w-8 and w; out-of-fragment stream (10%: ICMP type matches, named ports, SCTP service members, missing policies / "
-         "profiles / sets) compares the checker with its model only.  non-trivial = >= 2 enforced policies or profiles, >= 2 rules, "
+         "between w-8 and w, named-port sets; out-of-fragment stream (10%: ICMP type matches, negated CIDRs of the other family, SCTP "
+         "service members, missing policies / profiles / sets) compares the checker with its model only.  non-trivial = >= 2 enforced policies or profiles, >= 2 rules, "
          ">= 8 packets; distinct by (ip version, direction, state)",
     trusted=["Coq 8.16.1 kernel + vm_compute",
              "Common/Ipt.v match_one/apply_mark/run as the meaning of iptables/nftables rules, jumps and returns (kernel evaluation)",
@@ -74,17 +75,18 @@ CFG = dict(
              "Go driver harness/C12 (overlay build, tag verif; add-only shims exposing checkStore, extractRules, maxJumpsPerProgram)"],
     assumptions=["the checker is given a flow without HTTP data and without source/destination principal (plain L3/L4): the HTTP, "
                  "service-account and namespace matches of match.go are then vacuously true",
-                 "COMMON FRAGMENT (Spec.rule_in_fragment / state_in_fragment / packet_in_fragment): no ICMP type/code match and no "
-                 "named-port match (the checker lacks them), no negated CIDR list of the other address family, every referenced IP set "
+                 "COMMON FRAGMENT (Spec.rule_in_fragment / state_in_fragment / packet_in_fragment): no ICMP type/code match "
+                 "(the checker lacks it), no negated CIDR list of the other address family, every referenced IP set "
                  "and policy/profile present in the checker's store, IP+port set members tcp/udp only (the checker cannot name sctp), "
                  "protocol number 1..255, <= 2 positive match blocks per rule (C08 scratch-bit finding), rule action one of "
                  "allow/deny/pass/next-tier/log; on the pinned tree additionally (each a known finding, see known-findings.txt): no Pass "
-                 "rule in a profile, tier default action set, no explicit ip_version, NET set members of length <= w-8 or = w",
+                 "rule in a profile, tier default action set, no explicit ip_version, NET set members of length <= w-8 or = w, no named-port "
+                 "match",
                  "iptables/nftables: packet enters with conntrack state NEW and the drop mark clear; workload endpoint, admin up, no "
                  "VXLAN/IPIP blocking (C09 covers those)",
                  "BPF: instruction-level equivalence IR -> assembled eBPF is established per generated program by execution (C11), not "
                  "by a theorem over all programs; no NAT (pre-DNAT destination = destination)",
-                 "the model variant of the checker (profile pass / unset default action / ip_version / trie) is the one the driver probes "
+                 "the model variant of the checker (profile pass / unset default action / ip_version / trie / named ports) is the one the driver probes "
                  "from the tree"],
     classify=classify,
 )
